@@ -14,7 +14,8 @@ def main(tier):
     jobs = [('cmd.VerifC18Root', dict(params={'depth': d}, unwind=20, hooks={'choice_strings': True}, timeout_ms=60000)) for d in range(4)]
     rs, viol = ck.run('findRootDirectory', jobs, bounds={'start_depth': '0..3 below the temporary directory', 'nested_roots': 'all 16 combinations symbolic'})
     ck.triage(viol)
-    jobs = [('cmd.VerifC18StdinVsFile', dict(fixlen={'l1': a, 'l2': b}, unwind=40, hooks={'fixed_map_order': True, 'summarise': {'(*github.com/coreruleset/crs-toolchain/v2/regex/operators.Operator).Run': 6}}, timeout_ms=60000, terminal_obligations=())) for a in range(0, 3) for b in range(0, 3)]
+    jobs = [('cmd.VerifC18StdinVsFile', dict(fixlen={'l1': a, 'l2': b}, unwind=40, hooks={'fixed_map_order': True, 'summarise': {'(*github.com/coreruleset/crs-toolchain/v2/regex/operators.Operator).Run': 6}}, timeout_ms=60000, terminal_obligations=(), max_models=8)) for a in range(0, 3) for b in range(0, 3)]
+    ck.max_replays_per_obligation = 24
     rs, viol = ck.run('stdin-vs-file', jobs, bounds={'content': 'two lines of 0..2 bytes each over {a, b, blank, tab}'})
     ck.triage(viol)
     return ck.finish()
